@@ -41,7 +41,7 @@ func init() {
 		Doc: "under each kind, parseParam builds the value with the protoreflect.ValueOf* constructor protoreflect documents for that kind, from an unconverted temporary",
 		Run: ruleKindValueAgree})
 	register(&Rule{Name: "WKT-TABLE", Floor: 12,
-		Doc: "the well-known-type switch lists Timestamp, Duration, FieldMask and every wrapperspb message; under label X the message unmarshalled into is type X",
+		Doc: "the well-known-type switch lists Timestamp, Duration, FieldMask and every wrapperspb message; under label X the message unmarshalled into is type X (read from the case clauses or from the entries of a table keyed by the type names that parseParam consults)",
 		Run: ruleWKTTable})
 	register(&Rule{Name: "BYTES-ALPHABETS", Floor: 1,
 		Doc: "the bytes arm of parseParam reaches a standard and a URL-safe base64 alphabet and a padded and an unpadded variant",
